@@ -77,6 +77,14 @@ CLAIMED = {
          "Theorems in coq/Props/C14.v: the inventory of package-level mutable state written outside init equals the modelled set (table lemma over a source scan); no two public operations have conflicting unsynchronised accesses; under every schedule the atomic type-variable counter hands out distinct numbers (the pre-repair plain counter is refuted by a 4-step schedule); a compilation's inferred type does not depend on where the counter stands. Every run builds harness/cmd/racer with -race and runs goroutines that compile on separate engines, on one initialised engine, and invoke one compiled expression with distinct environment objects, comparing each outcome with the sequential one.",
          "PARTIAL: the Go memory model, the scheduler and races in code outside the inventory are run-time behaviour the model cannot exhibit; the race detector only sees the schedules that happen. Trusted: Coq kernel, harness, translator's shared-state scan, Go race detector.",
          "DESIGN.md §5 C14"),
+ "C15": ("Coq proof over a model of conv/{val,type,typeenv,valenv}.go with reflection described by (gty, gv); differential correspondence on Go values built by reflection",
+         "Theorems in coq/Props/C15.v: a converted value is deeply well typed; its type is the type TypeOf reports; for interface-free Go types whose nil-able parts are non-nil or declared optional the type depends only on the Go type; nil at top level, unsupported kinds, heterogeneous sequences and nesting beyond the depth limit are errors; scalars and sequence order are carried over. Every run builds Go values by reflection from generated shape descriptors (nested structs with tags and optional markers, pointers, slices, arrays, maps with primitive keys, interface-typed containers, times; pairs of values of one Go type) and compares ValOf, TypeOf, TypeEnvOf and ValEnvOf with the model, walks every converted value for deep well-typedness and checks type stability across values of one Go type.",
+         "Trusted: Coq kernel, extraction, driver, harness; reflect itself is represented by the descriptor pair (a trusted description of reflection); reflect.MapKeys order is an oracle (maps whose conversion depends on it are generated with at most one entry). Known finding: integer map keys beyond 2^53 collide.",
+         "DESIGN.md §5 C15"),
+ "C07": ("Coq proof over the Callable model (envCheck then run) and the conversion model; differential correspondence on pairs of compile-time / run-time host environments",
+         "Theorems in coq/Props/C07.v: a missing or differently typed name gives an error with an empty trace; equal types (extra names allowed, object field order free) are accepted and evaluate; every value of one interface-free Go struct type is accepted by an expression compiled against another value of it. Every run compiles against one reflection-built struct and invokes with the same value, another value of the Go type, an equally shaped Go type with permuted and renamed fields, type-changing / name-dropping / extra-name mutations and nil pointers, with tracing functions showing whether anything was evaluated, and compares outcome and trace with the model.",
+         "Trusted: as C15 and C03.",
+         "DESIGN.md §5 C07"),
 }
 NOT_YET = "machinery for this property is not built yet (work in progress in this repository; see DESIGN.md §5)"
 
